@@ -153,10 +153,10 @@ func runC16(c *Ctx) {
 					okW = true
 				}
 			}
-			c.obI("R16.1", st, "options-written-only-per-call-copy-"+field, okW, "a field of the codec's options is written only by an option setter at construction or in a copy local to the call: the skipped-lines countdown of one call never changes what the next call of the same codec skips", "store to csvOpts."+field+" through a pointer that is not local to this call")
+			c.obD("R16.1", st, "options-written-only-per-call-copy-"+field, okW, "a field of the codec's options is written only by an option setter at construction or in a copy local to the call: the skipped-lines countdown of one call never changes what the next call of the same codec skips", "store to csvOpts."+field+" through a pointer that is not local to this call")
 		}
 	}
-	c.obF("R16.1", p.Fn("rt.pipeCSV"), "skip-countdown-found", nOptW >= 3, "writes to csvOpts fields found (option setters and the skip countdowns)", fmt.Sprintf("%d writes", nOptW))
+	c.obRF("R16.1", p.Fn("rt.pipeCSV"), "skip-countdown-found", nOptW >= 3, "writes to csvOpts fields found (option setters and the skip countdowns)", fmt.Sprintf("%d writes", nOptW))
 	// the option copier
 	ar := p.Fn("(rt.csvOpts).applyToReader")
 	in0 := paramOfType(ar, "*encoding/csv.Reader")
@@ -279,7 +279,7 @@ func runC16(c *Ctx) {
 		}
 		c.obI("R16.3", call, "record-retained-as-copy", okC, "a record handed to the in-memory container is retained only as a copy: with csv.Reader.ReuseRecord the reader reuses the backing array, so retaining the slice itself makes all delivered records alias the last one", "the record slice itself is retained")
 	}
-	c.obF("R16.3", wr, "retains", nRet == 1, "the container retains records", "")
+	c.obRF("R16.3", wr, "retains", nRet == 1, "the container retains records", "")
 	// the same holds wherever the codec itself reads record by record: a record returned by Read is handed on (written)
 	// or copied, never retained as it is
 	for _, fn := range p.LibFuncs("rt") {
@@ -386,7 +386,7 @@ func runC16(c *Ctx) {
 	// WriterTo branch: pipe ends closed on every exit; Wait's error returned
 	gos := callsIn(fp, "(*golang.org/x/sync/errgroup.Group).Go")
 	waits := callsIn(fp, "(*golang.org/x/sync/errgroup.Group).Wait")
-	c.obF("R16.4", fp, "writerto-pipeline", len(gos) == 2 && len(waits) == 1, "the WriterTo source is piped through two goroutines that are waited for", fmt.Sprintf("%d Go, %d Wait", len(gos), len(waits)))
+	c.obRF("R16.4", fp, "writerto-pipeline", len(gos) == 2 && len(waits) == 1, "the WriterTo source is piped through two goroutines that are waited for", fmt.Sprintf("%d Go, %d Wait", len(gos), len(waits)))
 	for _, g := range gos {
 		_, a := callArgs(g.Common())
 		mc, ok := a[0].(*ssa.MakeClosure)
@@ -475,7 +475,7 @@ func runC16(c *Ctx) {
 			c.obF("R16.5", f, fmt.Sprintf("nil-param-%d-refused", i), okAll && nUse > 0, "a nil "+prm.Name()+" is refused with an error before it is used", "")
 		}
 	}
-	c.obF("R16.5", fc, "reflect-sites", n >= 6, "reflective uses after Indirect are enumerated", fmt.Sprintf("%d", n))
+	c.obRF("R16.5", fc, "reflect-sites", n >= 6, "reflective uses after Indirect are enumerated", fmt.Sprintf("%d", n))
 }
 
 // typeSwitchValue returns the value bound by a type-switch case `case T:` (the Extract #0 of a comma-ok assertion, or
